@@ -7,7 +7,7 @@
 #![allow(clippy::cast_precision_loss)] // Acceptable for graph algorithm metrics
 
 use std::cmp::Ordering;
-use std::collections::{BinaryHeap, HashMap, HashSet};
+use std::collections::{BinaryHeap, HashMap};
 
 use serde::{Deserialize, Serialize};
 
@@ -217,7 +217,7 @@ impl GraphEngine {
             });
 
         let mut open_set = BinaryHeap::new();
-        let mut closed_set = HashSet::new();
+        let mut closed_set: HashMap<u64, f64> = HashMap::new();
         let mut g_scores: HashMap<u64, f64> = HashMap::new();
         let mut came_from: HashMap<u64, (u64, u64)> = HashMap::new();
 
@@ -232,7 +232,19 @@ impl GraphEngine {
         let mut nodes_explored = 0;
 
         while let Some(current) = open_set.pop() {
-            if closed_set.contains(&current.node_id) {
+            // Stale entry: a cheaper route to this node was found after it was queued.
+            let best_g = g_scores
+                .get(&current.node_id)
+                .copied()
+                .unwrap_or(f64::INFINITY);
+            if current.g_score > best_g {
+                continue;
+            }
+            // Expanded before at this cost or cheaper.
+            if closed_set
+                .get(&current.node_id)
+                .is_some_and(|&g| g <= current.g_score)
+            {
                 continue;
             }
 
@@ -247,7 +259,7 @@ impl GraphEngine {
                 });
             }
 
-            closed_set.insert(current.node_id);
+            closed_set.insert(current.node_id, current.g_score);
 
             let neighbors = self.neighbors(
                 current.node_id,
@@ -257,10 +269,8 @@ impl GraphEngine {
             )?;
 
             for neighbor in neighbors {
-                if closed_set.contains(&neighbor.id) {
-                    continue;
-                }
-
+                // A node already expanded is re-opened when a cheaper route to it turns up
+                // (needed for heuristics that are admissible but not consistent).
                 let weight = self.get_astar_edge_weight(
                     current.node_id,
                     neighbor.id,
@@ -420,42 +430,60 @@ impl GraphEngine {
         edge_type: Option<&str>,
         direction: Direction,
     ) -> (f64, u64) {
-        let edges_key = match direction {
-            Direction::Outgoing | Direction::Both => Self::outgoing_edges_key(from),
-            Direction::Incoming => Self::incoming_edges_key(from),
-        };
+        // An edge stored as from -> to sits in the outgoing list of its `from` node and in the
+        // incoming list of its `to` node. Walking from `from` to `to` may use it forwards
+        // (Outgoing/Both, or any direction when undirected) or backwards (Incoming/Both, or
+        // any direction when undirected). Among parallel edges the cheapest one counts.
+        let mut best: Option<(f64, u64)> = None;
+        let lists = [
+            (Self::outgoing_edges_key(from), true),
+            (Self::incoming_edges_key(from), false),
+        ];
 
-        for edge_id in self.get_edge_list(&edges_key) {
-            let Ok(edge) = self.get_edge(edge_id) else {
-                continue;
-            };
+        for (edges_key, forwards) in lists {
+            for edge_id in self.get_edge_list(&edges_key) {
+                let Ok(edge) = self.get_edge(edge_id) else {
+                    continue;
+                };
 
-            let connects = match direction {
-                Direction::Outgoing => edge.to == to,
-                Direction::Incoming => edge.from == to,
-                Direction::Both => edge.to == to || edge.from == to,
-            };
-
-            if !connects {
-                continue;
-            }
-
-            if let Some(et) = edge_type {
-                if edge.edge_type != et {
+                let connects = if forwards {
+                    edge.from == from && edge.to == to
+                } else {
+                    edge.to == from && edge.from == to
+                };
+                let allowed = !edge.directed
+                    || match direction {
+                        Direction::Both => true,
+                        Direction::Outgoing => forwards,
+                        Direction::Incoming => !forwards,
+                    };
+                if !connects || !allowed {
                     continue;
                 }
+
+                if let Some(et) = edge_type {
+                    if edge.edge_type != et {
+                        continue;
+                    }
+                }
+
+                let weight = match weight_property {
+                    Some(prop) => match edge.properties.get(prop) {
+                        Some(PropertyValue::Float(w)) => *w,
+                        Some(PropertyValue::Int(w)) => *w as f64,
+                        _ => default_weight,
+                    },
+                    None => default_weight,
+                };
+
+                if best.is_none_or(|(w, _)| weight < w) {
+                    best = Some((weight, edge_id));
+                }
             }
+        }
 
-            let weight = match weight_property {
-                Some(prop) => match edge.properties.get(prop) {
-                    Some(PropertyValue::Float(w)) => *w,
-                    Some(PropertyValue::Int(w)) => *w as f64,
-                    _ => default_weight,
-                },
-                None => default_weight,
-            };
-
-            return (weight, edge_id);
+        if let Some(found) = best {
+            return found;
         }
 
         (default_weight, 0)
